@@ -605,6 +605,18 @@ func (c tcase) metricsText() string {
 	return ""
 }
 
+func (c tcase) badPart() string {
+	if c.Metrics == "not-yaml" || c.Metrics == "wrong-shape" || c.Metrics == "undecodable" {
+		return "metrics entry: " + c.Metrics
+	}
+	for _, f := range append(append([]payloadFile{}, c.Flows...), c.Quotas...) {
+		if f.Bad {
+			return "file " + f.Name
+		}
+	}
+	return ""
+}
+
 func (c tcase) badPayload() bool {
 	if c.Metrics == "not-yaml" || c.Metrics == "wrong-shape" || c.Metrics == "undecodable" {
 		return true
@@ -770,7 +782,11 @@ func runCase(r *ev.Recorder, c tcase) (nontrivial bool, obs observation, err err
 		}
 		return nontrivial, obs, nil
 	}
-	// success: the running flows are exactly those of the files now on disk, and those are the documented result
+	// success: nothing in the payload may have failed to load (an update is applied entirely or not at all) ...
+	if c.badPayload() {
+		return true, obs, fmt.Errorf("update answered %d although a part of its payload cannot be loaded (%s): it was neither rejected nor applied as a whole; files now [%s]", obs.Status, c.badPart(), fpString(after))
+	}
+	// ... and the running flows are exactly those of the files now on disk, and those are the documented result
 	want := behaviourOf(c.expectedAfterSuccess())
 	if !eqMap(behAfter, want) {
 		return true, obs, fmt.Errorf("update answered %d but the running flows %v are not those of the new configuration %v", obs.Status, behAfter, want)
